@@ -335,6 +335,12 @@ def m_get_unchecked(E, st, fid, t, args, dest_ty):
     idx = E.add_terms(st, lo, iv[1]) if not (isinstance(lo, int) and lo == 0) else iv[1]
     z = st.zone
     ms = st.maps[mid]
+    if E.contract == 'no-append' and z.entails_le(ms.len, idx) and not ms.holes:
+        # documented precondition of the unsafe entry point (full map => key present): a path that reaches
+        # for the slot behind the live prefix is the append path, which is outside the contract
+        from .interp import Pruned
+        E.stats['contract_pruned'] += 1
+        raise Pruned()
     if E.struct_is_cap(st, mid, hi):
         E.check_index(st, mid, idx, prim)
     else:
